@@ -467,6 +467,7 @@ func callOnce(job *Job, reg *Reg, fp *FuncPlan, fn reflect.Value, val string, se
 		val     reflect.Value
 		run     bool
 		unknown bool // the oracle cannot say what the leaf should hold
+		nilSrc  bool // a whole-slice conversion of a nil source slice: the leaf stays as it was or is nil
 	}
 	var exps []exp
 	for i := range fp.Items {
@@ -505,6 +506,22 @@ func callOnce(job *Job, reg *Reg, fp *FuncPlan, fn reflect.Value, val string, se
 		case "ignore":
 			e.unknown = true
 		case "assign", "slice":
+			if it.Kind == "assign" && leafT.Kind() == reflect.Slice && it.RHS != nil && it.RHS.Op == "conv" {
+				// T(U(src.X)) over a NIL source slice (e.g. []byte(string(src.X))) yields a non-nil
+				// empty slice: "when the source slice is nil the destination is left as it was or nil"
+				inner := it.RHS
+				for inner != nil && inner.Op == "conv" {
+					inner = inner.X
+				}
+				if inner != nil {
+					if iv, ierr := reg.Eval(inner, roots, nil); ierr == nil && iv.Kind() == reflect.Slice && iv.IsNil() {
+						rec.NilKept++
+						e.nilSrc = true
+						exps = append(exps, e)
+						continue
+					}
+				}
+			}
 			v, err := reg.Eval(it.RHS, roots, leafT)
 			if err != nil {
 				rec.Skipped = append(rec.Skipped, strings.Join(it.Path, ".")+": "+err.Error())
@@ -616,6 +633,10 @@ func callOnce(job *Job, reg *Reg, fp *FuncPlan, fn reflect.Value, val string, se
 		if e.unknown {
 			unknown = append(unknown, e.key)
 			continue
+		}
+		if e.nilSrc && after[e.key] == "nil" {
+			model.Delete(e.key)
+			model[e.key] = "nil"
 		}
 		if !e.run {
 			continue
